@@ -2,15 +2,20 @@ package main
 
 import (
 	"encoding/hex"
+	"fmt"
 	"math"
+	"sort"
 	"strconv"
 	"strings"
+
+	"verif/harness/core"
 
 	"github.com/Chocapikk/pgread/pgdump"
 )
 
 // parser of the canonical GoVal text of the Lean side (GoVal.canon):
-//   ~  T  F  i<decimal>  d<16 hex>  e<8 hex>  s<hex>  [v,v,…]  {<hexkey>:v,…}
+//   ~  T  F  i<decimal>  d<16 hex>  e<8 hex>  s<hex>  b<hex>  [v,v,…]  {<hexkey>:v,…}
+// (b<hex> = a Go []byte: values of Spec.SearchB.SVal, families searchbytes / secretbytes / cellfmtbytes)
 // Integers become int16/int32/int64/uint32 by turns (the search stringifies them all the same way).
 
 type valParser struct {
@@ -94,6 +99,8 @@ func (p *valParser) val() interface{} {
 		return math.Float32frombits(uint32(b))
 	case 's':
 		return unhexStr(p.hexRun())
+	case 'b':
+		return []byte(unhexStr(p.hexRun()))
 	case '[':
 		out := []interface{}{}
 		if p.peek() == ']' {
@@ -167,6 +174,73 @@ func parseDump(s string) *pgdump.DumpResult {
 		res.Databases = append(res.Databases, db)
 	}
 	return res
+}
+
+// canonS renders a value like core.CanonVal, except that a []byte is "b<hex>" (CanonVal prints it like a string):
+// the Value / Row of a hit must be the dump's own value, []byte included.
+func canonS(v interface{}) string {
+	var sb strings.Builder
+	writeCanonS(&sb, v)
+	return sb.String()
+}
+
+func writeCanonS(sb *strings.Builder, v interface{}) {
+	switch x := v.(type) {
+	case []byte:
+		sb.WriteString("b")
+		sb.WriteString(hex.EncodeToString(x))
+	case []interface{}:
+		sb.WriteString("[")
+		for i, e := range x {
+			if i > 0 {
+				sb.WriteString(",")
+			}
+			writeCanonS(sb, e)
+		}
+		sb.WriteString("]")
+	case map[string]interface{}:
+		keys := make([]string, 0, len(x))
+		for k := range x {
+			keys = append(keys, k)
+		}
+		sort.Strings(keys)
+		sb.WriteString("{")
+		for i, k := range keys {
+			if i > 0 {
+				sb.WriteString(",")
+			}
+			sb.WriteString(hex.EncodeToString([]byte(k)))
+			sb.WriteString(":")
+			writeCanonS(sb, x[k])
+		}
+		sb.WriteString("}")
+	default:
+		sb.WriteString(core.CanonVal(v))
+	}
+}
+
+// specText is the text of a cell as Spec.SearchB.cellTextS defines it: every []byte (at any depth) read as the
+// string of the same bytes, then fmt's %v (whose rendering of []byte-free values is checked by family cellfmt).
+func specText(v interface{}) string { return fmt.Sprintf("%v", specAsText(v)) }
+
+func specAsText(v interface{}) interface{} {
+	switch x := v.(type) {
+	case []byte:
+		return string(x)
+	case []interface{}:
+		out := make([]interface{}, len(x))
+		for i, e := range x {
+			out[i] = specAsText(e)
+		}
+		return out
+	case map[string]interface{}:
+		out := make(map[string]interface{}, len(x))
+		for k, e := range x {
+			out[k] = specAsText(e)
+		}
+		return out
+	}
+	return v
 }
 
 func hexs(s string) string { return hex.EncodeToString([]byte(s)) }
